@@ -1,4 +1,5 @@
 import RF.Model.StringFmt
+import RF.Lemmas.Shape
 /-!
 Helper lemmas for `RF/Props/StringFmt.lean`: index facts of `break_string` (every index the Rust code
 slices with is in range, every step consumes at least one grapheme), and the shape of what
@@ -1263,5 +1264,53 @@ theorem rewriteRaw_payload (k : LoopCfg) (hk : BlankIndent k) (opener closer ori
     refine ⟨X, ?_, hW⟩
     rw [← h, payload_pushStr, hX]
     simp
+
+/-! ## from a `StringFormat` to the constants of the loop -/
+
+theorem all_isContWs_replicate_tab (n : Nat) : (List.replicate n '\t').all isContWs = true := by
+  induction n with
+  | zero => rfl
+  | succ n ih => simp [List.replicate_succ, ih]; decide
+
+theorem all_isContWs_replicate_blank (n : Nat) : (List.replicate n ' ').all isContWs = true := by
+  induction n with
+  | zero => rfl
+  | succ n ih => simp [List.replicate_succ, ih]; decide
+
+theorem indentChars_contWs (i : RF.Shape.Indent) (c : RF.Shape.Config) :
+    (RF.Lemmas.Shape.indentChars i c).all isContWs = true := by
+  unfold RF.Lemmas.Shape.indentChars
+  split
+  · rw [List.all_append, all_isContWs_replicate_tab, all_isContWs_replicate_blank]; rfl
+  · exact all_isContWs_replicate_blank _
+
+/-- When `Indent::to_string` does not panic (it divides by `tab_spaces` under hard tabs) the two indentation
+strings are a line feed followed by tabs and blanks, and tabs and blanks. -/
+theorem loopCfg_ok {f : Fmt} {nm a b : Nat} {k : LoopCfg} (h : f.loopCfg nm a b = .ok k) :
+    k.trimEnd = f.trimEnd ∧ k.lineStart = f.lineStart ∧ k.lineEnd = f.lineEnd ∧
+    k.bareOk = f.lineStart.all isWs ∧
+    k.indentNl = '\n' :: RF.Lemmas.Shape.indentChars f.shape.indent f.config ∧
+    k.indentNoNl = RF.Lemmas.Shape.indentChars f.shape.indent f.config := by
+  by_cases hts : f.config.hard_tabs = true → 1 ≤ f.config.tab_spaces
+  · unfold Fmt.loopCfg at h
+    rw [RF.Lemmas.Shape.to_string_with_newline_eq _ _ hts, RF.Lemmas.Shape.to_string_eq _ _ hts] at h
+    simp only [Except.ok.injEq] at h
+    subst h
+    exact ⟨rfl, rfl, rfl, rfl, rfl, rfl⟩
+  · exfalso
+    have hht : f.config.hard_tabs = true := by
+      cases hh : f.config.hard_tabs with
+      | true => rfl
+      | false => exact absurd (fun h' => by rw [hh] at h'; cases h') hts
+    have hz : f.config.tab_spaces = 0 := by
+      have : ¬ (1 ≤ f.config.tab_spaces) := fun h' => hts (fun _ => h')
+      omega
+    unfold Fmt.loopCfg RF.Shape.Indent.to_string_with_newline RF.Shape.Indent.to_string_inner at h
+    simp [hht, hz, RF.Shape.udiv] at h
+
+theorem all_isWs_of_all_isContWs {l : List Char} (h : l.all isContWs = true) : l.all isWs = true := by
+  rw [List.all_eq_true] at h ⊢
+  exact fun c hc => isWs_of_isContWs (h c hc)
+
 
 end RF.Lemmas.StringFmt
